@@ -9,7 +9,7 @@ def run(ctx):
         ctx.validate("", "Trace_Login", "Trace_Login.cfg", ctx.replay, shards=1, label="replay (recorded trace)", extra_env={"JUDGE": "C09"})
         return ctx.finish()
     ctx.tlc_mc("", "Login", "MC_Login.cfg", workers=8)
-    scripts = c08.gen_scripts(ctx, "Gen_Login.cfg")
+    scripts = c08.gen_scripts(ctx, "Gen_LoginFlow.cfg")
     c08.run_login(ctx, scripts, "C09", extra_args=["-c09", 120 if thorough else 25],
                   label="all single-edit scripts + valid logins with boundary passwords (empty, colliding with user/host, key capacity, capacity+1)")
     ctx.extra.update({"scripts": len(scripts)})
